@@ -180,6 +180,65 @@ def shaped_case(ctx, seed):
     ctx.count('shaped:certificate-ok:' + name)
 
 
+def repeated_and_sparse(ctx, seed):
+    """a constraint object handed to st() more than once (e.g. a list of constraints that grows and is passed again) and bounds whose
+    right-hand side is a scipy sparse matrix / array or an np.matrix (all accepted by the comparison operators): dual() of each
+    handle is still shaped like its constraint and the certificate identities hold, on every dual-capable interface"""
+    import scipy.sparse as sps
+    from rsome import ro, lp as rlp, eco_solver, grb_solver
+    r = np.random.default_rng(seed)
+    rows, cols = int(r.integers(2, 4)), int(r.integers(2, 4))
+    X0 = r.choice([0., 1., 2.], (rows, cols))
+    Cm = r.choice([-2., -1., 1., 2.], (rows, cols))
+    mx = bool(r.random() < 0.5)
+    Lm = r.choice([-1., 0., 1., 2.], (int(r.integers(1, 3)), rows))
+    name, solver = [('default', None), ('ecos', eco_solver), ('gurobi', grb_solver)][int(r.integers(3))]
+    times = int(r.choice([1, 2, 2, 3])); rhs_kind = str(r.choice(['dense', 'csr_matrix', 'csr_array', 'np.matrix']))
+    front = str(r.choice(['ro', 'lp']))
+    case = {"repeated": {"seed": seed, "times": times, "rhs": rhs_kind, "front": front}, "interface": name}
+    ctx.search_cases += 1; ctx.evaluations += 1
+    wrap = {'dense': lambda a: a, 'csr_matrix': sps.csr_matrix, 'csr_array': sps.csr_array, 'np.matrix': np.matrix}[rhs_kind]
+    try:
+        with C.quiet():
+            m = (ro.Model() if front == 'ro' else rlp.Model()); X = m.dvar((rows, cols))
+            (m.max if mx else m.min)((Cm * X).sum())
+            B1 = Lm @ X0 + r.choice([0., 1.], (Lm.shape[0], cols))
+            cons = [Lm @ X <= B1]
+            for t in range(times):
+                m.st(cons)                       # the same object again
+            G1 = np.einsum('ki,jl->klij', Lm, np.eye(cols))
+            E = np.zeros((rows, cols, rows, cols))
+            for i in range(rows):
+                for j in range(cols):
+                    E[i, j, i, j] = 1.0
+            lo = X0 - r.choice([1., 2.], (rows, cols)); hi = X0 + r.choice([0., 1., 2., 3.], (rows, cols)) * r.choice([0., 1.], (rows, cols))
+            ub = m.st(X <= wrap(hi)); lb = m.st(X >= wrap(lo))
+            items = [(cons[0], B1.shape, G1, B1), (ub, (rows, cols), E, hi), (lb, (rows, cols), E, lo)]
+            (m.solve(display=False) if solver is None else m.solve(solver, display=False))
+            opt = m.get()
+    except RuntimeError:
+        ctx.count('repeated:not-optimal'); return
+    except Exception as ex:
+        ctx.count('repeated:refused:' + type(ex).__name__); return         # a refusal is not a wrong dual
+    grad = np.zeros((rows, cols)); val = 0.0
+    for h, shp, G, rhs in items:
+        try:
+            du = np.asarray(h.dual(), dtype=float)
+        except Exception as ex:
+            ctx.hit('dual-raises-on-accepted-constraint:' + type(h).__name__, {"error": type(ex).__name__ + ': ' + str(ex)[:160], "rhs": rhs_kind}, case); return
+        want = tuple(shp) if int(np.prod(shp)) > 1 else ()
+        if du.shape != want:
+            ctx.hit('dual-not-shaped-like-its-constraint', {"dual_shape": list(du.shape), "constraint_shape": list(shp), "type": type(h).__name__, "added_times": times}, case); return
+        du = du.reshape(shp)
+        grad += np.tensordot(du, G, axes=du.ndim); val += float((du * rhs).sum())
+    tol = 1e-6 if name != 'ecos' else 1e-5
+    if np.max(np.abs(grad - Cm)) > tol * (1 + np.abs(Cm).max()):
+        ctx.hit('certificate-fails:gradient identity (repeated constraint / sparse bounds)', {"residual": (grad - Cm).tolist()}, case); return
+    if abs(val - opt) > tol * (1 + abs(opt)):
+        ctx.hit('certificate-fails:value identity (repeated constraint / sparse bounds)', {"dual_value": val, "optimum": float(opt)}, case); return
+    ctx.count('repeated:certificate-ok:' + name + ':x' + str(times) + ':' + rhs_kind)
+
+
 def pw_objective_duals(ctx, seed):
     """LPs whose objective is written with maxof / minof, or as a worst case over a box (minmax / maxmin): the duals of the
     linear constraints follow the sign rule of the model's sense and reproduce the optimum (sum of dual * rhs, the epigraph rows of
@@ -240,6 +299,8 @@ def run(ctx):
     for k in range(ctx.n(60, 1200)):
         shaped_case(ctx, int(ctx.rng.integers(2 ** 31)))
     for k in range(ctx.n(40, 600)):
+        repeated_and_sparse(ctx, int(ctx.rng.integers(2 ** 31)))
+    for k in range(ctx.n(40, 600)):
         pw_objective_duals(ctx, int(ctx.rng.integers(2 ** 31)))
     for k in range(ctx.n(60, 1200)):
         seed = int(ctx.rng.integers(2 ** 31))
@@ -278,6 +339,9 @@ def replay(rp):
     c = rp['case']
     if 'pw_seed' in c:
         cx = C.Ctx('C14', 'quick', 0); pw_objective_duals(cx, c['pw_seed'])
+        return {"failures": [(h['key'], h['detail']) for h in cx.hits], "fails": bool(cx.hits)}
+    if 'repeated' in c:
+        cx = C.Ctx('C14', 'quick', 0); repeated_and_sparse(cx, c['repeated']['seed'])
         return {"failures": [(h['key'], h['detail']) for h in cx.hits], "fails": bool(cx.hits)}
     if 'shaped' in c:
         class _Ctx:
